@@ -263,3 +263,56 @@ func raceCanary(t *testing.T) string {
 	}
 	return "race canary silent: the detector did not report a deliberately racy pair of accesses in three attempts (log " + p + ")"
 }
+
+var barrierVar int
+
+//go:noinline
+func barrierWrite() { barrierVar = 7 }
+
+//go:noinline
+func barrierRead() int { return barrierVar }
+
+// raceBarrierSelfTest: a write made before the driver declares the boot
+// complete and a read made afterwards by another task must NOT be reported
+// (boot happens-before steady state); returns a description if it is.
+func raceBarrierSelfTest(t *testing.T) string {
+	if !simrt.RaceBuild {
+		return ""
+	}
+	mark := raceLogMark()
+	bubble(t, func() {
+		sim := simrt.New(simrt.NewChoices(5))
+		defer sim.Close()
+		phase := 0
+		sim.GoNamed("barrier-writer", false, func() {
+			simrt.Yield(-51)
+			barrierWrite()
+			simrt.Yield(-51)
+			simrt.Yield(-51)
+		})
+		gate := make(chan struct{})
+		sim.GoNamed("barrier-reader", false, func() {
+			simrt.Yield(-51)
+			<-gate
+			simrt.Yield(-51)
+			_ = barrierRead()
+			simrt.Yield(-51)
+		})
+		sim.OnIdle = func() bool {
+			phase++
+			if phase == 1 {
+				sim.BootDone = true
+				close(gate)
+				return false
+			}
+			return true
+		}
+		sim.Run()
+		sim.Teardown()
+	})
+	b, _ := os.ReadFile(raceLogPath())
+	if int64(len(b)) > mark && strings.Contains(string(b[mark:]), "barrierRead") {
+		return "boot barrier ineffective: a pre-boot write and a post-boot read were reported as a race"
+	}
+	return ""
+}
